@@ -354,13 +354,16 @@ func (s *single) event(tok string) (string, error) {
 			return "", e2
 		}
 		return fmt.Sprintf("%s~%d~%s~%s", res, n.appliedOps(), n.view(), sortedCalls(calls)), nil
-	case code == "s":
+	case code == "s" || code == "n":
 		if !n.up {
 			return "noop~0~D~-", nil
 		}
+		// Raft does not ask the FSM when nothing was applied since the last snapshot (token n)
 		err := n.cc.VerifRaft().Snapshot().Error()
 		res := "ok"
-		if err != nil && err != hraft.ErrNothingNewToSnapshot {
+		if err == hraft.ErrNothingNewToSnapshot {
+			res = "noop"
+		} else if err != nil {
 			res = "err"
 		}
 		return fmt.Sprintf("%s~%d~%s~-", res, n.appliedOps(), n.view()), nil
@@ -437,7 +440,12 @@ func (s *single) event(tok string) (string, error) {
 		if !got && n.view() != "E" {
 			return "", infra("replay tracker calls not received (%d of %d)", len(calls), c-from)
 		}
-		return fmt.Sprintf("ok~%d~%s~%s", n.appliedOps(), n.view(), sortedCalls(calls)), nil
+		// arrival order at the tracker is kept: the log is replayed as one batch (K29)
+		cs := "-"
+		if len(calls) > 0 {
+			cs = strings.Join(calls, "+")
+		}
+		return fmt.Sprintf("ok~%d~%s~%s~%d", n.appliedOps(), n.view(), cs, from), nil
 	}
 	return "", fmt.Errorf("bad token %s", tok)
 }
@@ -636,6 +644,9 @@ func runSingle(kind string, ops []op, events []string) ([]op, []string, []string
 		o, err := s.event(e)
 		if err != nil {
 			return nil, nil, nil, err
+		}
+		if e == "0s" {
+			e = "0n"
 		}
 		if strings.HasPrefix(e, "0R") && !strings.HasPrefix(o, "noop") {
 			c := len(n.idxOf)
